@@ -35,6 +35,7 @@ from __future__ import annotations
 
 import io
 import itertools
+import json
 import os
 import random
 import struct
@@ -466,12 +467,14 @@ def evaluate_vec(fmt, case, seed):
         units = [dict(u, toks=u["toks"] | u["path"]) for o in obs for u in o["units"]]
         xh = [i for i, k in enumerate(kinds) if k != "svg"]
         ok_counts = {n, len(xh)}
+        if fmt == "rtf" and n == 1 and not truth[0]["body"]:
+            ok_counts.add(0)       # no explicit page and no text: flowing document without content, "no unit" is not judged
         if len(units) not in ok_counts:
             fails.append(("count", f"{n} source units {kinds} -> {len(units)} units (texts {[u['text'] for u in units]})"))
         nums = [u["num"] for u in units]
         nums_ok = check_numbers_basic(nums, fails)
-        if nums_ok and len(units) in ok_counts and "svg" not in kinds and nums != list(range(1, n + 1)):
-            fails.append(("number", f"{n} source units {kinds} -> unit numbers {nums}, expected 1..{n}"))
+        if nums_ok and len(units) in ok_counts and "svg" not in kinds and nums != list(range(1, len(units) + 1)):
+            fails.append(("number", f"{n} source units {kinds} -> unit numbers {nums}, expected 1..{len(units)}"))
         nums_for_identity = nums_ok
         if fmt in JOIN_FORMATS:
             for o in obs:
@@ -532,11 +535,13 @@ def evaluate_head(fmt, case, seed):
     nums = [u["num"] for u in units]
     present = [i for i, s in enumerate(secs) if s["present"]]
     nonempty = [i for i in present if secs[i]["body"]]
+    hsecs = [i for i in present if i > 0]
+    lo_units = max(1, len([i for i in hsecs if secs[i]["body"]]))
     shape = [(s["level"], len(s["body"])) for s in secs if s["present"]]
     desc = f"sections (level, #body pieces; level 0 = preamble) {shape}"
     if len(units) == 0:
         fails.append(("count", f"no unit at all for a document with {desc}; full text {obs[0]['full'] if obs else None!r}"))
-    elif len(units) != 1 and not (max(1, len(nonempty)) <= len(units) <= len(present)):
+    elif len(units) != 1 and not (lo_units <= len(units) <= len(present)):
         fails.append(("count", f"{len(units)} units for {desc}: neither one unit nor one per heading section"))
     if check_numbers_basic(nums, fails) and nums and nums != list(range(1, len(nums) + 1)):
         fails.append(("number", f"unit numbers {nums} are not the 1-based positions 1..{len(nums)}"))
@@ -549,7 +554,7 @@ def evaluate_head(fmt, case, seed):
     def below(i, j):
         return i == j or (i < j and i > 0 and all(secs[x]["level"] > secs[i]["level"] for x in range(i + 1, j + 1)))
     body_in = [sorted({owner[t] for t in u["toks"] if t in owner}) for u in units]
-    if units:
+    if True:
         for tok, i in owner.items():
             holders = [k for k, u in enumerate(units) if tok in u["toks"]]
             if not holders:
@@ -579,7 +584,7 @@ def evaluate_head(fmt, case, seed):
         firsts = [s[0] for s in body_in if s]
         if any(b < a for a, b in zip(firsts, firsts[1:])):
             fails.append(("order", f"units are not in source order: sections per unit {body_in}; {desc}"))
-    if units:
+    if True:
         for h, i in hsec.items():
             holders = [k for k, u in enumerate(units) if h in u["path"] or h in find_tokens(u["text"] or "")]
             if not holders:
@@ -621,9 +626,22 @@ def evaluate(fmt, case, seed=0):
     return evaluate_vec(fmt, case, seed)
 
 
+_RX_CACHE: dict = {}
+_RX_LAST = [None]
+
+
 def reexec(fmt, case):
+    """Deterministic re-execution of one case. Results are memoised for the shrinker (thousands of failing cases shrink
+    through the same small cases); asking for the same case twice in a row always executes it again, so the triage's
+    'replay twice' check still runs the real code."""
+    key = fmt + "|" + json.dumps(case, sort_keys=True)
+    if key in _RX_CACHE and _RX_LAST[0] != key:
+        _RX_LAST[0] = key
+        return _RX_CACHE[key]
+    _RX_LAST[0] = key
     f, _ = evaluate(fmt, case, int(os.environ.get("VERIF_SEED", "0") or 0))
-    return f or []
+    _RX_CACHE[key] = f or []
+    return _RX_CACHE[key]
 
 
 # ------------------------------------------------------------------------------------------------------ shrinking / triage
@@ -634,8 +652,9 @@ def shrinks(case):
     if "secs" in case:
         secs = case["secs"]
         for i in range(len(secs)):
-            yield dict(case, secs=secs[:i] + secs[i + 1:])
-        if case["pre"]:
+            if len(secs) > 1 or case["pre"]:          # stay inside the enumerated space (never the empty document)
+                yield dict(case, secs=secs[:i] + secs[i + 1:])
+        if case["pre"] and secs:
             yield dict(case, pre=0)
         for i, (lv, b) in enumerate(secs):
             for b2 in HEAD_BODIES:
@@ -646,7 +665,7 @@ def shrinks(case):
         return
     kinds, opts = case["kinds"], case.get("opts") or {}
     for i in range(len(kinds)):
-        if len(kinds) > 1 or True:
+        if len(kinds) > 1:                            # stay inside the enumerated space (the empty mailbox is swept directly)
             yield {"kinds": kinds[:i] + kinds[i + 1:], "opts": opts}
     for k in sorted(opts):
         yield {"kinds": kinds, "opts": {a: b for a, b in opts.items() if a != k}}
@@ -669,11 +688,11 @@ def embeds(small, big):
     if "secs" in small:
         if small["pre"] > big["pre"]:
             return False
-        return _subseq(small["secs"], big["secs"], lambda a, b: a[1] == b[1] and a[0] <= b[0])
+        return _subseq(small["secs"], big["secs"], lambda a, b: BODY_RANK[a[1]] <= BODY_RANK[b[1]] and a[0] <= b[0])
     so, bo = small.get("opts") or {}, big.get("opts") or {}
     if any(bo.get(k) != v for k, v in so.items()):
         return False
-    return _subseq(small["kinds"], big["kinds"])
+    return _subseq(small["kinds"], big["kinds"], lambda a, b: KIND_RANK[a] <= KIND_RANK[b])
 
 
 # ------------------------------------------------------------------------------------------------------------------ run
